@@ -5,33 +5,13 @@
 package c13
 
 import (
-	"bytes"
-	"fmt"
 	"testing"
 	"time"
 
-	"verif/harness/e2e"
 	"verif/harness/pbt"
-	"verif/harness/refproto"
-	"verif/harness/simnet"
 	"verif/harness/udprun"
+	"verif/harness/wiremon"
 )
-
-type stream struct {
-	endpoint string // sender address
-	sid      uint32
-}
-
-type firstTx struct {
-	proto   uint8
-	frag    uint8
-	payload []byte
-	leLen   uint16
-}
-
-func isSeqBearing(p uint8) bool {
-	return p == refproto.OpenSessionRequest || p == refproto.OpenSessionResponse || refproto.IsData(p)
-}
 
 func prop(c udprun.Case) (o pbt.Outcome) {
 	maxWall := 100 * time.Second
@@ -43,80 +23,13 @@ func prop(c udprun.Case) (o pbt.Outcome) {
 		o.Failf("start", "valid configuration did not start: %s", res.StartErr)
 		return
 	}
-	byIdx := map[int]*e2e.DecodedDatagram{}
-	for _, d := range res.Datagrams {
-		byIdx[d.D.Idx] = d
+	sig, msg, st := wiremon.Check(res.Events, res.Datagrams)
+	if sig != "" {
+		o.Failf(sig, "%s", msg)
+		o.Obs = res.Describe()
+		return
 	}
-	// delivered[receiver endpoint][session] = set of peer sequence numbers handed to the endpoint
-	delivered := map[stream]map[uint32]bool{}
-	first := map[stream]map[uint32]*firstTx{}
-	nextFirst := map[stream]uint32{}
-	retrans, gapAcks, acks := 0, 0, 0
-	for _, ev := range res.Events {
-		d := byIdx[ev.Idx]
-		if d == nil || d.Seg == nil {
-			continue
-		}
-		m := d.Seg.Meta
-		switch ev.Kind {
-		case simnet.EvDeliver:
-			if isSeqBearing(m.Proto) {
-				k := stream{ev.To, m.SessionID}
-				if delivered[k] == nil {
-					delivered[k] = map[uint32]bool{}
-				}
-				delivered[k][m.Seq] = true
-			}
-		case simnet.EvSend:
-			sender := d.D.From.String()
-			k := stream{sender, m.SessionID}
-			where := fmt.Sprintf("datagram %d from %s %s", d.D.Idx, sender, e2e.DescribeSeg(d.Seg))
-			// (1) cumulative ack never ahead of receipt
-			if refproto.IsDataAck(m.Proto) {
-				acks++
-				got := delivered[k]
-				gap := false
-				for s := uint32(0); s < m.UnAck; s++ {
-					if !got[s] {
-						o.Failf("ack-ahead", "%s acknowledges everything below %d, but sequence number %d of session %d was never delivered to it", where, m.UnAck, s, m.SessionID)
-						o.Obs = res.Describe()
-						return
-					}
-				}
-				for s := range got {
-					if s > m.UnAck {
-						gap = true
-					}
-				}
-				if gap {
-					gapAcks++
-				}
-			}
-			// (2) retransmissions identical; (3) sequence numbers dense from zero
-			if isSeqBearing(m.Proto) {
-				if first[k] == nil {
-					first[k] = map[uint32]*firstTx{}
-				}
-				if f, ok := first[k][m.Seq]; ok {
-					retrans++
-					if f.proto != m.Proto || f.frag != m.Fragment || !bytes.Equal(f.payload, d.Seg.Payload) || f.leLen != m.LEExtracted {
-						o.Failf("retrans-differs", "%s: retransmission of sequence number %d differs from its first transmission (type %d->%d, fragment %d->%d, payload %d->%d bytes, equal=%v)",
-							where, m.Seq, f.proto, m.Proto, f.frag, m.Fragment, len(f.payload), len(d.Seg.Payload), bytes.Equal(f.payload, d.Seg.Payload))
-						o.Obs = res.Describe()
-						return
-					}
-				} else {
-					if m.Seq != nextFirst[k] {
-						o.Failf("seq-order", "%s: first transmission carries sequence number %d, expected %d (numbers are assigned from zero without gaps)", where, m.Seq, nextFirst[k])
-						o.Obs = res.Describe()
-						return
-					}
-					nextFirst[k] = m.Seq + 1
-					first[k][m.Seq] = &firstTx{proto: m.Proto, frag: m.Fragment, payload: d.Seg.Payload, leLen: m.LEExtracted}
-				}
-			}
-		}
-	}
+	retrans, gapAcks, acks := st.Retrans, st.GapAcks, st.Acks
 	o.NonTrivial = retrans > 0 || gapAcks > 0
 	o.Label("retrans>0=%v", retrans > 0)
 	o.Label("gapAcks>0=%v", gapAcks > 0)
